@@ -1,11 +1,14 @@
 //! Engine E5 "fullstack": the broker's real per-connection task (`server::broker::remote()`,
 //! `mqtt_connect`, `RemoteLink`, `Network`, `V4`/`V5`) over in-memory duplex streams, with the
 //! real router loop on its own OS thread. Serves C19 (admission), C16 (will decision logic in
-//! `remote()`) and C20 (cross-version delivery, "encoded without panic").
+//! `remote()`), C20 (cross-version delivery, "encoded without panic") and C09 (sustained flows
+//! through the link: window, `Unschedule`/`Ready`, resuming after acknowledgements).
 //!
-//! `stack` is the test bed (router thread, listeners, scripted clients, barriers);
-//! `props` holds the campaigns: `c19_campaigns()`, `c16_campaigns()`, `c20_campaigns()`.
+//! `stack` is the test bed (router thread, listeners, scripted clients, barriers, quiescence
+//! detector); `props` holds the campaigns `c19_campaigns()`, `c16_campaigns()`,
+//! `c20_campaigns()`; `flow` holds the campaign `Flow` ("e5_flow").
 
 #![allow(dead_code)]
+pub mod flow;
 pub mod props;
 pub mod stack;
